@@ -173,11 +173,11 @@ func Run(run *core.Run) core.Coverage {
 	// hand-overs at blocking/finishing points are few.
 	rungs := []sched.Rung{{Bound: 0, MaxFree: -1}, {Bound: 1, MaxFree: -1}, {Bound: 2, MaxFree: -1}, {Bound: 3, MaxFree: 0}, {Bound: 3, MaxFree: -1}}
 	target := 3 // rungs that must complete for exhaustive=true
-	budget := 35 * time.Second
+	budget := 45 * time.Second
 	if !run.Quick() {
 		// the thorough tier of C19 shares 15 minutes with part (a), whose own budget is 13
 		rungs = append(rungs, sched.Rung{Bound: 4, MaxFree: 0})
-		budget = 75 * time.Second
+		budget = 90 * time.Second
 	}
 	if v := os.Getenv("C19B_RUNGS"); v != "" { // development aid: "1:0,0:-1"
 		rungs = nil
@@ -195,7 +195,7 @@ func Run(run *core.Run) core.Coverage {
 	}
 	var tasks []sched.Task
 	for _, s := range scs {
-		tasks = append(tasks, sched.Task{Label: s.Name, Program: Program, Config: s, Horizon: horizon})
+		tasks = append(tasks, sched.Task{Label: s.Name, Program: Program, Config: s, Horizon: horizon, Rungs: s.Rungs})
 	}
 
 	nw := runtime.GOMAXPROCS(0)
@@ -246,6 +246,9 @@ func Run(run *core.Run) core.Coverage {
 		valhists += int64(maxVals)
 		distinctObs += len(obsSet)
 		row := map[string]interface{}{"thread_set": sc.Name, "operations": sc.String(), "executions_all_spaces": execs, "distinct_outcomes": len(obsSet)}
+		if sc.Rungs > 0 {
+			row["explored_only_the_first_spaces"] = sc.Rungs
+		}
 		if last != nil {
 			row["largest_space_completed"] = last.Rung.String()
 			row["executions_in_it"] = last.Executions
